@@ -310,6 +310,22 @@ def wrapper_obligations(chk, prefix, want):
         if "C18" in want:
             plain = z3.And(exc_, z3.Not(inv), z3.Not(susp), z3.Not(bg))
             chk.prove(f"{prefix}.wrapper.table.user_exception", list(s.pc) + [plain], zst("FAILED"), desc="ordinary user exceptions and non-retriable SDK errors (ExecutionError, ...) => FAILED")
+        if prefix == "C16" and "C16" in want:
+            # WHAT is measured against the limit on the error path: the serialized FAILED response itself (json.dumps of the output dictionary that
+            # carries the error), not a part of it.  Inline error => that text fits; EXECUTION FAIL record sent => that text did not fit.
+            measured = [e2 for e2 in js if e2.d.get("result") is not None and isinstance(e2.arg, Ref) and s.get(e2.arg).get("__kind__") == "dict" and "Error" in s.get(e2.arg)["e"]]
+            # every error class answered with FAILED, except a CheckpointError (the checkpoint system itself is broken: nothing can be recorded)
+            plain_ = z3.And(exc_, z3.Not(inv), z3.Not(susp), z3.Not(bg), z3.Not(cpe))
+            if not cps:
+                same = [e2 for e2 in measured if e2.arg.oid == v.oid or z3.is_true(simp(ops.values_equal(s, e2.arg, v)))]
+                chk.prove(f"{prefix}.exec.large_error.measures_response", list(s.pc) + [plain_, he], z3.Or([slen(e2.d["result"].t) <= limit for e2 in same]) if same else F,
+                          desc=f"a FAILED response that carries the error inline is the dictionary whose json.dumps text was measured and found to be at most {limit} characters "
+                               "(the whole serialized response, not the error message alone: quotes, escapes and the envelope count)",
+                          sample="wrapper error path: returned dict is the measured dict", describe=lambda m: {"handler": "raises ExecutionError / ValueError with a message longer than the response limit"}, replay=_replay_large_error)
+            elif not cp_failed:
+                chk.prove(f"{prefix}.exec.large_error.measures_response", list(s.pc) + [plain_], z3.Or([slen(e2.d["result"].t) > limit for e2 in measured]) if measured else F,
+                          desc=f"the EXECUTION FAIL record replaces the response only when the json.dumps text of the FAILED response (with the error) is longer than {limit}",
+                          sample="wrapper error path: checkpointed because the measured response was too long", describe=lambda m: {"handler": "raises with a message near the response limit"}, replay=_replay_large_error)
         if cps and ("C16" in want or "C11" in want or "C03" in want):
             c = cps[0]
             u = s.get(c.update)
@@ -323,7 +339,8 @@ def wrapper_obligations(chk, prefix, want):
             last_cp = max((i for i, e2 in enumerate(tr) if e2.kind == "cp"), default=None)
             chk.prove(f"{prefix}.exec.result_once_last", s.pc, len(cps) <= 1, desc="at most one execution-level result record per invocation, and the wrapper sends nothing after it")
     if n_ret == 0:
-        chk.fault("wrapper: no returning path explored")
+        # cover obligation: the outcome table above is vacuous if no explored path of the wrapper returns an output
+        chk.prove(f"{prefix}.wrapper.table.reachable", [], F, desc="reachability: the wrapper returns an invocation output on some explored path")
     return eng, res
 
 
@@ -441,6 +458,12 @@ def checkpoint_error_classification(chk, prefix="C06"):
                       desc="classification table of checkpoint failures by HTTP status, error code and message prefix (as documented in the code): is_retriable() iff 4xx (not 429) with an error body that is not 'InvalidParameterValueException: Invalid Checkpoint Token...'",
                       sample="CheckpointError.from_exception over an arbitrary botocore-style response",
                       describe=(lambda g_: (lambda m: _classification_inputs(m, g_)))(g), replay=_replay_classification)
+
+
+def _replay_large_error(inputs):
+    from pyvc.check import native
+    r_ = native("large_execution_error_replay.py", {}, timeout=180)
+    return bool(r_.get("confirmed")), r_
 
 
 def _classification_inputs(m, g):
